@@ -943,10 +943,16 @@ class UTMITranslator(Elaboratable):
         dir_based_start = dir_rising_edge & self.ulpi.nxt.i
 
 
-        with m.If(~self.ulpi.dir.i | rxevent_decoder.rx_stop):
+        # An RxCmd is on the bus under the same conditions the event decoder samples it. Act on its
+        # RxActive bit in the same cycle: going through the decoder's registered rx_start strobe
+        # would raise rx_active one cycle too late for a data byte that directly follows the RxCmd.
+        rxcmd_present   = past_dir & self.ulpi.dir.i & ~self.ulpi.nxt.i & ~register_window.reading
+        rxcmd_rx_active = self.ulpi.data.i[4]
+
+        with m.If(~self.ulpi.dir.i | (rxcmd_present & ~rxcmd_rx_active)):
             # TODO: this should probably also trigger if RxError
             m.d.usb += self.rx_active.eq(0)
-        with m.Elif(dir_based_start | rxevent_decoder.rx_start):
+        with m.Elif(dir_based_start | (rxcmd_present & rxcmd_rx_active)):
             m.d.usb += self.rx_active.eq(1)
 
 
